@@ -8,6 +8,7 @@ import (
 	"fmt"
 	"os"
 	"strings"
+	"time"
 )
 
 type handler func(toks []string) string
@@ -43,10 +44,34 @@ func main() {
 			fmt.Fprintln(w, "BADCASE")
 			continue
 		}
-		fmt.Fprintln(w, safe(h, toks))
+		fmt.Fprintln(w, guarded(h, toks))
 	}
 	w.Flush()
 	out.Close()
+}
+
+// guarded runs one case under a watchdog: a case that does not finish within caseTimeout
+// (a managed goroutine blocked outside the scheduler's control, a livelock) is reported as
+// "HANG" and abandoned (its goroutines leak); after maxHangs such cases the rest of the
+// file is answered "SKIPPED-AFTER-HANGS" so that a broken tree cannot stall the check.
+const caseTimeout = 20 * time.Second
+const maxHangs = 3
+
+var hangs int
+
+func guarded(h handler, toks []string) string {
+	if hangs >= maxHangs {
+		return "SKIPPED-AFTER-HANGS"
+	}
+	done := make(chan string, 1)
+	go func() { done <- safe(h, toks) }()
+	select {
+	case r := <-done:
+		return r
+	case <-time.After(caseTimeout):
+		hangs++
+		return "HANG case did not finish within " + caseTimeout.String()
+	}
 }
 
 // safe turns a Go panic into the observable "PANIC".
